@@ -14,8 +14,22 @@ def run(tier):
     runner = GenRunner(C.scratch, workers=8)
     entries = []
     for t in trees:
-        vg = ValueGen(t['tree'], rng, plain_strings=True)
+        vg = ValueGen(t['tree'], rng, plain_strings=False)
+        R = Resolver(t['tree'])
         jobs = []
+        # an invalid object of a class with a chunked section: its serialization fails part-way on the shared writer
+        poison = None
+        for pcls, pbody in classes_of(t['tree']):
+            if any(i['tag'] == 'chunked' for i in pbody):
+                try:
+                    pv = vg.obj(pcls, pbody)
+                    ms = [m for d, m in obj_mutants(R, vg, pcls, pbody, pv)]
+                    inner = [m for d, m in obj_mutants(R, vg, pcls, pbody, pv) if 'None (required)' in d]
+                    if ms:
+                        poison = dict(cls=pcls, value=(inner or ms)[-1])
+                        break
+                except Exception:
+                    pass
         for cls, body in all_classes_of(t['tree']):
             arrays = [i['attrs']['name'] for i in flat_body(body) if i['tag'] == 'array' and str(i['attrs'].get('optional', '')).lower() != 'true']
             for k in range(2 if quick else 4):
@@ -23,7 +37,7 @@ def run(tier):
                     v = vg.obj(cls, body)
                 except Exception:
                     continue
-                jobs.append(dict(op='immut', cls=cls, value=v, arrays=arrays))
+                jobs.append(dict(op='immut', cls=cls, value=v, arrays=arrays, poison=poison))
         entries.append(dict(name=t['name'], tree=t['tree'], jobs=jobs))
     run_entries(C, runner, entries)
     n = nd = 0
